@@ -52,6 +52,11 @@ class TransformPolicy(P.PrinterPolicy):
     def loop_scheme(self, interp, loop_id, s):
         return 'generic'
 
+    def on_write(self, interp, obj, name, value):
+        if not hasattr(self, 'writes'):
+            self.writes = []
+        self.writes.append((obj, name))
+
     keep_fields = ()
 
     def havoc(self, interp, v, base, loop_id, obj, field):
@@ -371,20 +376,30 @@ def task_posargs():
         d = ctx.data(node)
         is_args = interp.isinstance(node, Native(ra.arguments))
         before = None
+        snap = {}
         if is_args:
-            before = (interp.getattr(node, 'posonlyargs'), interp.getattr(node, 'args'))
+            for fld in ('posonlyargs', 'args', 'vararg', 'kwonlyargs', 'kw_defaults', 'kwarg', 'defaults'):
+                snap[fld] = interp.getattr(node, fld)
+            before = (snap['posonlyargs'], snap['args'])
         r = interp.call(f, [node], {})
         pruned.update(interp.pruned)
         ctx.check(name + '/returns-its-argument', r == node, kind='post')
+        same = lambda fld: d.fields.get(fld) is snap[fld] or d.fields.get(fld) == snap[fld]
         if is_args:
             na, npo = d.fields['args'], d.fields['posonlyargs']
-            cat = isinstance(na, Obj) and ctx.data(na).extra.get('concat') == before
-            ctx.check(name + '/args-become-posonlyargs-followed-by-args', bool(cat), kind='post', detail='args=%r' % (ctx.data(na).extra if isinstance(na, Obj) else na,))
-            ctx.check(name + '/posonlyargs-emptied', isinstance(npo, Obj) and ctx.data(npo).symlen is None and len(ctx.data(npo).items) == 0, kind='post')
+            if snap['kwarg'] is None:
+                cat = isinstance(na, Obj) and ctx.data(na).extra.get('concat') == before
+                ctx.check(name + '/args-become-posonlyargs-followed-by-args', bool(cat), kind='post', detail='args=%r' % (ctx.data(na).extra if isinstance(na, Obj) else na,))
+                ctx.check(name + '/posonlyargs-emptied', isinstance(npo, Obj) and ctx.data(npo).symlen is None and len(ctx.data(npo).items) == 0, kind='post')
+            else:
+                # C01: with a **kwargs parameter a positional-only name can also be passed as a keyword, the marker carries behaviour
+                ctx.check(name + '/marker-kept-when-kwargs-can-capture-the-name', same('args') and same('posonlyargs'), kind='post',
+                          detail='def f(a, /, **kw) accepts f(1, a=2); def f(a, **kw) does not')
             for fld in ('vararg', 'kwonlyargs', 'kw_defaults', 'kwarg', 'defaults'):
-                ctx.check(name + '/leaves-%s-alone' % fld, fld not in d.fields or True, kind='frame')
+                ctx.check(name + '/leaves-%s-alone' % fld, same(fld), kind='frame')
         else:
-            ctx.check(name + '/other-nodes-are-not-written', all(k in ('lineno',) or True for k in d.fields), kind='frame')
+            written = [nm for o, nm in getattr(policy, 'writes', []) if o == node]
+            ctx.check(name + '/other-nodes-are-not-written', not written, kind='frame', detail=repr(written))
     ex = Explorer()
     ex.explore(run)
     return finish(ex, name, [source.describe(T + 'remove_posargs:remove_posargs')], pruned)
